@@ -658,6 +658,72 @@ mod tests {
         assert_eq!(hdmx_advance, 5);
     }
 
+    // FreeType ignores the hdmx table for fixed pitch fonts
+    // (`isFixedPitch` of the `post` table).
+    #[test]
+    fn ignore_hdmx_when_fixed_pitch() {
+        let font_size = 16u8;
+        let font = FontRef::new(font_test_data::TINOS_SUBSET).unwrap();
+        let gid = font.charmap().map('"').unwrap();
+        let table_offset = |tag: &[u8; 4]| {
+            font.table_directory
+                .table_records()
+                .iter()
+                .find(|record| record.tag() == crate::Tag::new(tag))
+                .unwrap()
+                .offset() as usize
+        };
+        let advance = |data: &[u8]| {
+            let font = FontRef::new(data).unwrap();
+            let outlines = font.outline_glyphs();
+            // The mono target disables backward compatibility mode
+            let hinter = HintingInstance::new(
+                &outlines,
+                Size::new(font_size as f32),
+                LocationRef::default(),
+                HintingOptions {
+                    engine: Engine::Interpreter,
+                    target: Target::Mono,
+                },
+            )
+            .unwrap();
+            let outline = outlines.get(gid).unwrap();
+            outline
+                .draw(&hinter, &mut NullPen)
+                .unwrap()
+                .advance_width
+                .unwrap()
+        };
+        // Give the glyph a width in hdmx that the hinter would never produce
+        let mut data = font_test_data::TINOS_SUBSET.to_vec();
+        let hdmx_offset = table_offset(b"hdmx");
+        let record_count =
+            u16::from_be_bytes([data[hdmx_offset + 2], data[hdmx_offset + 3]]) as usize;
+        let record_size =
+            u32::from_be_bytes(data[hdmx_offset + 4..hdmx_offset + 8].try_into().unwrap()) as usize;
+        let record_offset = (0..record_count)
+            .map(|i| hdmx_offset + 8 + i * record_size)
+            .find(|offset| data[*offset] == font_size)
+            .unwrap();
+        data[record_offset + 2 + gid.to_u32() as usize] = 99;
+        // Proportional: the advance comes from hdmx
+        assert_eq!(advance(&data), 99.0);
+        // Now mark the font as fixed pitch: isFixedPitch is the u32 at
+        // offset 12 of the post table
+        let post_offset = table_offset(b"post");
+        data[post_offset + 12..post_offset + 16].copy_from_slice(&1u32.to_be_bytes());
+        assert_eq!(
+            FontRef::new(&data)
+                .unwrap()
+                .post()
+                .unwrap()
+                .is_fixed_pitch(),
+            1
+        );
+        // The advance comes from the hinted phantom points again
+        assert_eq!(advance(&data), 5.0);
+    }
+
     // When hinting is disabled by the prep table, FreeType still returns
     // rounded advance widths
     #[test]
